@@ -1284,3 +1284,106 @@ Proof.
     rewrite app_nil_r, lowk_app. f_equal. f_equal.
     rewrite (pc_syn cf ct _ Hsyn), pc_sep_strip. symmetry. apply pc_syn. exact Hsyn.
 Qed.
+
+(* translate, both sides *)
+Theorem translate_outside cv0 cv1 r0 r1 side p :
+  is_subpath (cv_of cv0 cv1 (negb side)) (root_of r0 r1 (negb side)) p false = NotSub <->
+  translate cv0 cv1 r0 r1 side p = None.
+Proof. rewrite translate_trans1. apply trans1_outside. Qed.
+
+Theorem translate_inside cv0 cv1 r0 r1 side p r :
+  is_subpath (cv_of cv0 cv1 (negb side)) (root_of r0 r1 (negb side)) p false = Rel r ->
+  translate cv0 cv1 r0 r1 side p = Some (join (cv_of cv0 cv1 side) [root_of r0 r1 side; r]).
+Proof. rewrite translate_trans1. apply trans1_inside. Qed.
+
+Theorem translate_lands_inside cv0 cv1 r0 r1 side p q :
+  conv_ok (cv_of cv0 cv1 side) -> abs_path (cv_of cv0 cv1 side) (root_of r0 r1 side) ->
+  translate cv0 cv1 r0 r1 side p = Some q -> dl (cv_of cv0 cv1 side) q = false ->
+  is_subpath (cv_of cv0 cv1 side) (root_of r0 r1 side) q false <> NotSub.
+Proof. intros Hok Ha. rewrite translate_trans1. apply trans1_lands_inside; assumption. Qed.
+
+Theorem translate_roundtrip cv0 cv1 r0 r1 side p :
+  conv_ok cv0 -> conv_ok cv1 -> same_syntax cv0 cv1 -> abs_path cv0 r0 -> abs_path cv1 r1 ->
+  cv_win cv0 = false -> cv_win cv1 = false ->
+  is_subpath (cv_of cv0 cv1 (negb side)) (root_of r0 r1 (negb side)) p false <> NotSub ->
+  exists q back,
+    translate cv0 cv1 r0 r1 side p = Some q /\
+    translate cv0 cv1 r0 r1 (negb side) q = Some back /\
+    paths_match (cv_of cv0 cv1 (negb side)) back p false = true.
+Proof.
+  intros H0 H1 Hs Ha0 Ha1 Hw0 Hw1.
+  assert (Hs' : same_syntax cv1 cv0) by (destruct Hs; split; symmetry; assumption).
+  destruct side; cbn [negb cv_of root_of]; intros Hin.
+  - destruct (trans1_roundtrip cv0 cv1 H0 H1 r0 r1 p Hs Ha0 Ha1 Hw0 Hw1 Hin) as [q [back [A [B C]]]].
+    exists q, back. rewrite !translate_trans1. cbn [negb cv_of root_of]. auto.
+  - destruct (trans1_roundtrip cv1 cv0 H1 H0 r1 r0 p Hs' Ha1 Ha0 Hw1 Hw0 Hin) as [q [back [A [B C]]]].
+    exists q, back. rewrite !translate_trans1. cbn [negb cv_of root_of]. auto.
+Qed.
+
+(* replace_path lands inside the new folder, with an equivalent relative part, also for the root *)
+Lemma replace_lands_inside_equiv cv (Hok : conv_ok cv) f p t rel out :
+  is_subpath cv f p false = Rel rel -> rel <> [cv_sep cv] -> t <> [] ->
+  replace_path cv p f t = RepOk out ->
+  exists rel', is_subpath cv t out false = Rel rel' /\ pc cv rel' = pc cv rel.
+Proof.
+  intros H Hrel Ht Hrep.
+  destruct (str_eqb_spec (nps cv t) [cv_sep cv]) as [Hroot|Hroot].
+  - rewrite (replace_moves_rel _ _ _ _ _ H) in Hrep. injection Hrep as <-.
+    destruct (str_eqb_spec rel [cv_sep cv]) as [E|_]; [contradiction|].
+    destruct (is_subpath_rel_shape cv Hok _ _ _ _ H) as [E|Hs]; [contradiction|].
+    rewrite Hroot. exists ([cv_sep cv] ++ rel). split.
+    + apply is_subpath_root; [exact Hok|exact Hroot|]. destruct Hs as [r' [E [Hr [Hna Hrs]]]].
+      exists rel. split; [reflexivity|]. split; [subst rel; discriminate|]. split.
+      * apply noalt_cons; [apply noalt_sep|exact Hna].
+      * simpl. rewrite rstrip_cons, Hrs. destruct rel; [discriminate|reflexivity].
+    + destruct Hs as [r' [E [Hr [Hna Hrs]]]].
+      rewrite !pc_noalt; [apply comps_cons_sep|exact Hna|apply noalt_cons; [apply noalt_sep|exact Hna]].
+  - exists rel. split; [|reflexivity]. eapply replace_lands_inside; eassumption.
+Qed.
+
+(* ------------------------------------------------------------------ the concrete fold of the executable model *)
+Definition cv_std (cs win : bool) : conv :=
+  {| cv_sep := 47; cv_alt := Some 92%N; cv_cs := cs; cv_win := win; cv_fold := fold_std |}.
+
+Lemma fold_std_cases c :
+  (fold_std c = c /\ ~ (65 <= c <= 90)%N /\ ~ ((192 <= c <= 222)%N /\ c <> 215%N)) \/
+  (fold_std c = (c + 32)%N /\ ((65 <= c <= 90)%N \/ ((192 <= c <= 222)%N /\ c <> 215%N))).
+Proof.
+  unfold fold_std.
+  destruct (N.leb_spec 65 c), (N.leb_spec c 90), (N.leb_spec 192 c), (N.leb_spec c 222), (N.eqb_spec c 215);
+    cbn [andb negb]; lia.
+Qed.
+
+Lemma fold_std_ok cs win : fold_ok (cv_std cs win).
+Proof.
+  constructor; cbn [cv_fold cv_sep cv_alt cv_win cv_std].
+  - intros c. destruct (fold_std_cases c) as [[E _]|[E H]]; rewrite E; [exact E|].
+    destruct (fold_std_cases (c + 32)) as [[E2 _]|[_ H2]]; [exact E2|lia].
+  - intros c. destruct (fold_std_cases c) as [[E _]|[E H]]; rewrite E; [reflexivity|lia].
+  - intros a Ha c. injection Ha as <-. destruct (fold_std_cases c) as [[E _]|[E H]]; rewrite E; [reflexivity|lia].
+  - intros _ c. destruct (fold_std_cases c) as [[E _]|[E H]]; rewrite E; [reflexivity|lia].
+Qed.
+
+Lemma cv_std_ok cs win : conv_ok (cv_std cs win).
+Proof. intros _. apply fold_std_ok. Qed.
+
+(* strict only removes the "same path" answer *)
+Lemma subpath_strict cv f t r : is_subpath cv f t true = Rel r -> is_subpath cv f t false = Rel r.
+Proof.
+  intros H. assert (Hne : is_subpath cv f t true <> NotSub) by (rewrite H; discriminate).
+  apply is_subpath_args in Hne as [Hf Ht]. rewrite is_subpath_eq in * by assumption. cbv zeta in *.
+  destruct (str_eqb _ _); [discriminate|exact H].
+Qed.
+
+Lemma subpath_nonstrict cv f t r : is_subpath cv f t false = Rel r ->
+  is_subpath cv f t true = Rel r \/ (is_subpath cv f t true = NotSub /\ r = [cv_sep cv]).
+Proof.
+  intros H. assert (Hne : is_subpath cv f t false <> NotSub) by (rewrite H; discriminate).
+  apply is_subpath_args in Hne as [Hf Ht]. rewrite is_subpath_eq in * by assumption. cbv zeta in *.
+  destruct (str_eqb _ _); [right; split; [reflexivity|congruence]|left; exact H].
+Qed.
+
+Lemma match_cs cv a b d : cv_cs cv = true -> (paths_match cv a b d = true <-> pc cv a = pc cv b).
+Proof.
+  intros Hc. rewrite match_iff_key by (intros H; congruence). unfold key. rewrite Hc. reflexivity.
+Qed.
